@@ -281,7 +281,7 @@ Fixpoint insert_sorted (x : bytes) (l : list bytes) : list bytes :=
 Definition sort_bytes (l : list bytes) : list bytes := fold_right insert_sorted [] l.
 
 (* script: L[A 0;A t] start thread t; L[A 6;A t;A c] start thread t whose send_packet uses timeout 0 (c=0), a short positive one (c=1, also
-   L[A 6;A t]) or math.inf (c=2: behaves like no timeout); with c=0/1 it fails with
+   L[A 6;A t]) math.inf (c=2) or a generous finite one (c=3): both behave like no timeout; with c=0/1 it fails with
    TimeoutError iff the lock is held when it starts, i.e. iff some started thread still has a send call to make:
    a thread inside send is parked until released); L[A 1;_] release whichever thread is parked inside socket.send.
    pending = number of socket send calls the started threads still have to make. *)
@@ -298,7 +298,9 @@ Fixpoint thr_replay (kind : Z) (progs : list (list packet)) (acts : list sx) (pe
       | None => thr_replay kind progs r (pending + gates_of kind (nth t progs [])) (upd t (Some true) st)
       | Some _ => thr_replay kind progs r pending st
       end
-  | L [A 6%Z; A t; A 2%Z] :: r =>     (* timeout = math.inf: waits like timeout = None *)
+  | L [A 6%Z; A t; A 2%Z] :: r | L [A 6%Z; A t; A 3%Z] :: r =>
+      (* timeout = math.inf, or finite but generous (never expires: the holder is released by the script while the caller
+         waits): the waiter is granted like an untimed one and releases the lock at the end of its body *)
       let t := Z.to_nat t in
       match nth t st None with
       | None => thr_replay kind progs r (pending + gates_of kind (nth t progs [])) (upd t (Some true) st)
